@@ -84,6 +84,10 @@ class World:
         self.plan = plan
         self.root = boot.scratch_root()
         self.slot = slot
+        try:
+            os.chdir(self.root)      # relative product paths are spelled from here
+        except OSError:
+            pass
         disk.install()
         simfs.register()
         if fresh:
@@ -176,6 +180,8 @@ class World:
             return "simfs://" + self.base.lstrip("/") + tail
         if b == "simfs_opt":
             return "simfs://" + self.sub + tail
+        if b in ("local", "file") and spelling == "relative":
+            return os.path.relpath(self.base, self.root)
         if b == "local":
             if spelling == "file":
                 return "file://" + self.base
